@@ -52,6 +52,12 @@ def gen_cases(ctx):
         # zero) the model is singular -- the rotated copy carries 1e-17 rounding noise in the invariants and
         # the scale-free slip ratios amplify it to O(1) -- so such grains are ill-conditioned (see C03)
         c["tex"] = str(rng.choice(["random", "cluster_tight", "cluster", "cluster_wide", "girdle", "single"]))
+        # likewise a rigid rotation (strain rate exactly zero) makes *every* grain unresolved: in the rotated
+        # frame the strain rate is 1e-17 rounding noise, the code is discontinuous there -> ill-conditioned
+        spinfree = [k for k in gen.L_KINDS if k != "pure_spin"]
+        if c["L"]["kind"] == "pure_spin":
+            c["L"]["kind"] = str(rng.choice(spinfree))
+        c["L"]["kind2"] = str(rng.choice(spinfree))
         yield c
 
 
